@@ -13,8 +13,13 @@ nid that does not cross an establishing edge again loses the guard.
 import ast
 
 
+_POS = {ast.NotIn: ast.In, ast.IsNot: ast.Is, ast.NotEq: ast.Eq}
+
+
 def facts(test, polarity=True):
-  """Set of (expr, bool) pairs known when `test` evaluated to `polarity`."""
+  """List of (expr, bool) pairs known when `test` evaluated to `polarity`. Negative comparisons are
+  reported through their positive form (`a not in b` false == `a in b` true); a disjunction known
+  true (or a conjunction known false) is reported whole, as one opaque atom."""
   out = []
   def go(e, pol):
     if isinstance(e, ast.UnaryOp) and isinstance(e.op, ast.Not):
@@ -29,6 +34,12 @@ def facts(test, polarity=True):
         for v in e.values:
           go(v, False)
         return
+      out.append((e, pol))
+      return
+    if isinstance(e, ast.Compare) and len(e.ops) == 1 and type(e.ops[0]) in _POS:
+      pos = ast.Compare(left=e.left, ops=[_POS[type(e.ops[0])]()], comparators=e.comparators)
+      ast.copy_location(pos, e)
+      out.append((pos, not pol))
       return
     out.append((e, pol))
   go(test, polarity)
@@ -52,11 +63,13 @@ def establishing_edges(cfg, atom, want=True):
   return edges
 
 
-def _reach_cut(cfg, starts, cut_edges):
+def _reach_cut(cfg, starts, cut_edges, stops=()):
   seen = set(starts)
   todo = list(starts)
   while todo:
     a = todo.pop()
+    if a in stops:
+      continue
     for b in cfg.succ[a]:
       if (a, b) in cut_edges or b in seen:
         continue
@@ -86,3 +99,67 @@ def text_atom(*texts):
     except Exception:
       return False
   return pred
+
+
+def branch_successors(cfg, nid):
+  """(successors taken when the `if` test at nid is true, successors taken when it is false)."""
+  t = set(cfg.if_true.get(nid, ()))
+  f = set(cfg.succ[nid]) - t - set(cfg.if_exc.get(nid, ()))
+  return t, f
+
+
+def eval_test(expr, atom_value):
+  """Three-valued evaluation of a test under `atom_value(expr) -> True | False | None` (None:
+  unknown). not/and/or are interpreted; everything else is an atom. Negative comparisons are
+  handed to atom_value in their positive form and the answer is flipped."""
+  if isinstance(expr, ast.UnaryOp) and isinstance(expr.op, ast.Not):
+    v = eval_test(expr.operand, atom_value)
+    return None if v is None else (not v)
+  if isinstance(expr, ast.BoolOp):
+    vals = [eval_test(v, atom_value) for v in expr.values]
+    if isinstance(expr.op, ast.And):
+      if any(v is False for v in vals):
+        return False
+      return True if all(v is True for v in vals) else None
+    if any(v is True for v in vals):
+      return True
+    return False if all(v is False for v in vals) else None
+  if isinstance(expr, ast.Compare) and len(expr.ops) == 1 and type(expr.ops[0]) in _POS:
+    pos = ast.Compare(left=expr.left, ops=[_POS[type(expr.ops[0])]()], comparators=expr.comparators)
+    v = atom_value(pos)
+    return None if v is None else (not v)
+  return atom_value(expr)
+
+
+def reaches_under(cfg, starts, targets, stops, atom_value):
+  """Follow the CFG from `starts` under a truth assignment of test atoms: at an `if` whose test
+  evaluates to a definite value only that branch is taken (both when unknown). Exceptional edges
+  are not followed. Returns (reached_some_target, met_unknown_test). `stops` are not passed."""
+  seen = set()
+  todo = list(starts)
+  unknown = False
+  hit = False
+  while todo:
+    a = todo.pop()
+    if a in seen:
+      continue
+    seen.add(a)
+    if a in targets:
+      hit = True
+      continue
+    if a in stops:
+      continue
+    n = cfg.nodes[a]
+    nxt = set(b for b in cfg.succ[a] if (a, b) not in cfg.exc_edges)
+    if n.kind == "if" and a in cfg.if_true:
+      v = eval_test(n.stmt.test, atom_value)
+      t, f = branch_successors(cfg, a)
+      if v is True:
+        nxt = t
+      elif v is False:
+        nxt = f - {b for b in f if (a, b) in cfg.exc_edges}
+      else:
+        unknown = True
+    todo.extend(nxt)
+  return hit, unknown
+
